@@ -5,6 +5,7 @@ import (
 	"fmt"
 	"io"
 	"os"
+	"runtime"
 	"runtime/debug"
 	"strings"
 	"testing/synctest"
@@ -727,6 +728,20 @@ func (x *ex) finishStreams() {
 	}
 }
 
+// yieldSink is a byte sink whose Write gives the processor away on a keyed subset of calls.
+type yieldSink struct {
+	bytes.Buffer
+	seed, id, n uint64
+}
+
+func (y *yieldSink) Write(p []byte) (int, error) {
+	y.n++
+	if core.Mix(y.seed, y.id, y.n)%3 != 0 {
+		runtime.Gosched()
+	}
+	return y.Buffer.Write(p)
+}
+
 // stepPar: concurrent goroutines use one compressor's pools at the same time.
 func (x *ex) stepPar(st *Step) {
 	c := encoding.GetCompressor(st.Comp)
@@ -755,8 +770,11 @@ func (x *ex) stepPar(st *Step) {
 				}
 				r.done = true
 			}()
-			var buf bytes.Buffer
-			w, err := c.Compress(&buf)
+			// the sink yields the processor inside some of its Write calls (a stream under flow control):
+			// which ones is part of the schedule, so streams interleave at exactly the points where a real
+			// sink would block - also inside Close, which flushes
+			buf := &yieldSink{seed: uint64(st.N), id: uint64(i)}
+			w, err := c.Compress(buf)
 			if err != nil {
 				r.err = "open: " + err.Error()
 				return
